@@ -9,6 +9,12 @@ theorem Char.toNat_inj {a b : Char} (h : a.toNat = b.toNat) : a = b := by
   apply UInt32.toNat_inj.1
   exact h
 
+theorem toNat_ofNat_small {n : Nat} (h : n < 0xD800) : (Char.ofNat n).toNat = n := by
+  have hv : n.isValidChar := by
+    unfold Nat.isValidChar
+    omega
+  simp [Char.ofNat, hv, Char.ofNatAux, Char.toNat]
+
 theorem cmpStr_refl (a : Str) : cmpStr a a = .eq := by
   induction a with
   | nil => rfl
